@@ -1,7 +1,7 @@
 (** C16 — refutation witnesses for the behaviour of the current code that violates the property,
     non-vacuity examples for the guarded theorems, and the gathered statements. *)
 From V Require Import Base.Util Gql.Ast Writer.Wop C16.Model C16.Spec
-  C16.ProofsTemplate C16.ProofsString C16.ProofsStrip.
+  C16.ProofsTemplate C16.ProofsString C16.ProofsStrip C16.ProofsDoc C16.ProofsReindent.
 Local Open Scope N_scope.
 
 (** ** the full statements (not provable for the current code: see the refutations) *)
@@ -162,3 +162,52 @@ Proof.
   rewrite (strip_only_nitrogql true ex_schema) by reflexivity.
   apply template_roundtrip; vm_compute; reflexivity.
 Qed.
+
+(** ** the module written for serverGraphqlOutput exports the SDL text of the checked schema minus
+    the nitrogql-only directives *)
+Lemma strip_prefix_app : forall p x, strip_prefix p (p ++ x) = Some x.
+Proof.
+  induction p as [|a p IH]; intro x; [reflexivity|].
+  cbn [app strip_prefix]. rewrite N.eqb_refl. apply IH.
+Qed.
+
+Lemma module_value_wrap t : module_value (module_prefix ++ t ++ [59; LF]) = eval_template t.
+Proof.
+  unfold module_value. rewrite strip_prefix_app. rewrite rev_app_distr. cbn [rev app].
+  change ((LF =? 10) && (59 =? 59)) with true. cbv iota. rewrite rev_involutive. reflexivity.
+Qed.
+
+Lemma server_module_shape mp d :
+  server_module mp d = module_prefix ++ js_run (print_tsdoc (server_schema mp d)) ++ [59; LF].
+Proof. unfold server_module, module_prefix. rewrite <- !app_assoc. reflexivity. Qed.
+
+Theorem server_module_value : forall model_plugin d,
+  directives_placed model_plugin d = true ->
+  tsdoc_ok (spec_server_schema model_plugin d) = true ->
+  module_value (server_module model_plugin d)
+  = Some (LF :: just_run (print_tsdoc (spec_server_schema model_plugin d))).
+Proof.
+  intros mp d Hp Hok. rewrite server_module_shape, module_value_wrap.
+  rewrite (strip_only_nitrogql mp d Hp). apply tsdoc_template_roundtrip. exact Hok.
+Qed.
+
+Example server_module_value_example :
+  directives_placed true ex_schema = true /\ tsdoc_ok (spec_server_schema true ex_schema) = true.
+Proof. split; reflexivity. Qed.
+
+Example opdoc_ok_example :
+  opdoc_ok (mkOpDoc pos0
+    [DOp (mkOp pos0 Query (Some (ex_id "Q"))
+       (Some (mkVarDefs pos0 [mkVarDef pos0 (s "v") pos0 (TNamed (ex_id "Int")) (Some (VInt pos0 (s "3"))) [];
+                              mkVarDef pos0 (s "w") pos0 (TNamed (ex_id "In")) (Some (VObject pos0 [])) []]))
+       [] (SelSet pos0 [SField None (ex_id "f") (Some (mkArgs pos0 [(ex_id "a", VVar (s "v") pos0); (ex_id "b", VObject pos0 [(ex_id "k", VVar (s "w") pos0)])])) []
+                          (Some (SelSet pos0 [SSpread pos0 (ex_id "F") []]))]))]) = true.
+Proof. reflexivity. Qed.
+
+(** non-vacuity of the re-indentation theorem: a field description as it is usually written *)
+Example reindent_example :
+  let rest := [s "  desc"; []; s "  more"; s "  "] in
+  forallb line_ok ([] :: rest) = true
+  /\ join_lf ([] :: indent_lines 2 rest) = [LF] ++ s "    desc" ++ [LF; LF] ++ s "    more" ++ [LF] ++ s "    "
+  /\ block_string_value (join_lf ([] :: rest)) = s "desc" ++ [LF; LF] ++ s "more".
+Proof. vm_compute. auto. Qed.
